@@ -450,3 +450,80 @@ Definition ginit (progs : list (list (nat * nat))) : gstate :=
    as it is, and with the next block built outside the lock (Cache.Load, then createSendingMessage(entry.Data())) *)
 Definition handle_continue_prog (k : nat) : list (nat * nat) := [(1%nat, 0%nat); (k, 0%nat)].
 Definition handle_continue_unlocked_prog (k : nat) : list (nat * nat) := [(1%nat, 0%nat); (0%nat, k)].
+
+(* ================================================================================================
+   net/blockwise: the expiry sweep and the handlers of the blocks of ONE transfer (round 4).
+
+   A partially received block-wise message c lives in an entry of receivingMessagesCache, together with a guard
+   (a semaphore of weight 1).  The handler of a block (BlockWise.Handle -> processReceivedMessage) looks the entry
+   up (Cache.Load), reads c once (`mg.Acquire(mg.Context(), 1)`: the context of the message), takes the guard,
+   works on c (getPayloadFromCachedReceivedMessage / copyToPayloadFromOffset: k accesses) and - when its block
+   is the last one - removes the entry and hands c to the application (`next(w, c)`: an application handler
+   holds it for the duration of the call; a reassembled request is never released afterwards: left to the GC),
+   then gives the guard back.  The handler of a block that finds no entry works on another message.
+   The housekeeping sweep (Cache.CheckExpirations) removes the entry when it has expired and runs its onExpire
+   callback.  As the code is, the callback leaves c alone (SwKeep: the abandoned message is left to the GC).
+   SwRelease is the "leak fix": the callback gives c back to the pool - straight away (guarded = false) or after
+   taking the entry's guard (guarded = true).
+   Every access to shared state (cache, guard, message) is one step; threads are scheduled arbitrarily; a thread
+   that cannot move (the guard is taken) stutters.  Thread 0 is the sweep, thread j + 1 the handler number j;
+   handlers are a total map nat -> handler: any number of them, each with its own amount of work.
+   Not modelled: a completed message handed to a caller waiting in Do (who releases it: see notes, O13). *)
+Inductive sweep_mode := SwKeep | SwRelease (guarded : bool).
+Inductive spc := X0 (* about to look at the entry *) | XDel (* entry removed, onExpire about to run *) | XG (* guard taken *)
+               | XRel (* ReleaseMessage entered *) | XRec (* recycled *) | XDone.
+Inductive hpc := HIdle | HFound (* entry looked up *) | HWait (* waiting for the guard *) | HIn (k : nat) (* guard held, k accesses to go *)
+               | HDel (* last block: about to remove the entry *) | HLend (* about to call next(w, c) *) | HHeld (* inside next *)
+               | HUnl (* about to give the guard back *) | HDone.
+Record handler := { h_pc : hpc; h_k : nat; h_last : bool }.
+Record xstate := { x_s : spc; x_entry : bool; x_guard : option nat; x_hs : nat -> handler; x_trace : list lc }.
+
+Definition set_h (hs : nat -> handler) (i : nat) (h : handler) : nat -> handler :=
+  fun j => if Nat.eqb j i then h else hs j.
+Definition with_pc (h : handler) (pc : hpc) : handler := {| h_pc := pc; h_k := h_k h; h_last := h_last h |}.
+
+Definition step_s (m : sweep_mode) (c : Z) (st : xstate) : xstate :=
+  let mk s e g evs := {| x_s := s; x_entry := e; x_guard := g; x_hs := x_hs st; x_trace := x_trace st ++ evs |} in
+  match x_s st with
+  | X0 => if x_entry st then mk XDel false (x_guard st) [] else mk XDone false (x_guard st) []
+  | XDel => match m with
+            | SwKeep => mk XDone (x_entry st) (x_guard st) []
+            | SwRelease false => mk XRel (x_entry st) (x_guard st) [Rel c]
+            | SwRelease true => match x_guard st with None => mk XG (x_entry st) (Some O) [] | Some _ => st end
+            end
+  | XG => mk XRel (x_entry st) (x_guard st) [Rel c]
+  | XRel => mk XRec (x_entry st) (x_guard st) [Rec c]
+  | XRec => match m with
+            | SwRelease true => mk XDone (x_entry st) None []
+            | _ => mk XDone (x_entry st) (x_guard st) []
+            end
+  | XDone => st
+  end.
+
+Definition step_h (c : Z) (i : nat) (st : xstate) : xstate :=
+  let h := x_hs st i in
+  let mk pc e g evs := {| x_s := x_s st; x_entry := e; x_guard := g; x_hs := set_h (x_hs st) i (with_pc h pc); x_trace := x_trace st ++ evs |} in
+  match h_pc h with
+  | HIdle => mk (if x_entry st then HFound else HDone) (x_entry st) (x_guard st) []
+  | HFound => mk HWait (x_entry st) (x_guard st) [Use c]
+  | HWait => match x_guard st with None => mk (HIn (h_k h)) (x_entry st) (Some (S i)) [] | Some _ => st end
+  | HIn (S k) => mk (HIn k) (x_entry st) (x_guard st) [Use c]
+  | HIn O => mk (if h_last h then HDel else HUnl) (x_entry st) (x_guard st) []
+  | HDel => mk HLend false (x_guard st) []
+  | HLend => mk HHeld (x_entry st) (x_guard st) [Hold c]
+  | HHeld => mk HUnl (x_entry st) (x_guard st) [Unhold c true]
+  | HUnl => mk HDone (x_entry st) None []
+  | HDone => st
+  end.
+
+Definition xstep (m : sweep_mode) (c : Z) (st : xstate) (tid : nat) : xstate :=
+  match tid with O => step_s m c st | S i => step_h c i st end.
+Definition xrun (m : sweep_mode) (c : Z) (sched : list nat) (st : xstate) : xstate := fold_left (xstep m c) sched st.
+
+(* progs j = (accesses under the guard, the block is the last one) of handler j *)
+Definition xinit (progs : nat -> nat * bool) : xstate :=
+  {| x_s := X0; x_entry := true; x_guard := None;
+     x_hs := fun j => {| h_pc := HIdle; h_k := fst (progs j); h_last := snd (progs j) |}; x_trace := [] |}.
+
+(* what the sweep itself does to the pool, as seen by the goroutine that runs it (family X of the harness) *)
+Definition sweep_window (m : sweep_mode) (c : Z) : list lc := match m with SwKeep => [] | SwRelease _ => rel c end.
